@@ -37,6 +37,7 @@ class Cfg:
     allow_forall_outer_flatten: bool = True
     allow_predicates_in_or: bool = True
     unique_domains: bool = False
+    allow_plain_variables: bool = True
     flatten_nonempty: bool = False
     allow_subquery_bool_root: bool = True
     min_dom: int = 0
@@ -49,13 +50,21 @@ class _Ctx:
         self.dvars: List[dict] = []
         self.flags = {}
         self.n_objs = 0
+        self.plain_int = []  # indexes of variables over plain ints
+        self.plain_str = []  # indexes of variables over plain strs
         self.no_pred = 0  # >0: no Predicate / symbolic function atoms (inside for_all while that finding stands)
         self.truthy_only = 0  # >0: literals are drawn truthy (inside for_all while the falsy-literal finding stands)
 
     # ---- terms -----------------------------------------------------------------------------
+    def is_plain(self, r):
+        return r[0] == "var" and self.vars[r[1]].get("plain")
+
+    def items(self, scope):
+        return [r for r in scope if not self.is_plain(r)]
+
     def item_term(self, scope, depth=1):
         d = self.draw
-        base = d(st.sampled_from(scope))
+        base = d(st.sampled_from(self.items(scope)))
         t = {"t": base[0], "i": base[1]}
         while depth > 0:
             depth -= 1
@@ -82,7 +91,14 @@ class _Ctx:
             opts.append("prop")
         if allow_lit:
             opts += ["lit", "lit"]
+        plain = [r[1] for r in scope if self.is_plain(r) and self.vars[r[1]]["type"] == "int"]
+        if plain:
+            opts += ["plain", "plain"]
+        if not self.items(scope):
+            opts = (["plain"] if plain else []) + (["lit"] if allow_lit or not plain else [])
         o = d(st.sampled_from(opts))
+        if o == "plain":
+            return {"t": "var", "i": d(st.sampled_from(plain))}
         if o == "lit":
             return {"t": "lit", "v": d(st.integers(1 if self.truthy_only else 0, 3))}
         it = self.item_term(scope)
@@ -96,6 +112,11 @@ class _Ctx:
         d = self.draw
         if allow_lit and d(st.booleans()):
             return {"t": "lit", "v": d(st.sampled_from(NAMES[1:] if self.truthy_only else NAMES))}
+        plain = [r[1] for r in scope if self.is_plain(r) and self.vars[r[1]]["type"] == "str"]
+        if plain and (d(st.booleans()) or not self.items(scope)):
+            return {"t": "var", "i": d(st.sampled_from(plain))}
+        if not self.items(scope):
+            return {"t": "lit", "v": d(st.sampled_from(NAMES[1:] if self.truthy_only else NAMES))}
         return {"t": "attr", "of": self.item_term(scope), "name": "name"}
 
     # ---- atoms -----------------------------------------------------------------------------
@@ -105,7 +126,18 @@ class _Ctx:
         if self.cfg.allow_predicates and not self.no_pred:
             kinds += ["hastype", "pred", "symfn"]
         kinds += ["val_eq"] if self.truthy_only else ["friend_none", "val_eq"]
+        if not self.items(scope):
+            kinds = ["cmp_int", "cmp_str", "in_lit"]  # only a plain-value variable is in scope
         k = d(st.sampled_from(kinds))
+        if k == "in_lit":
+            r = d(st.sampled_from([x for x in scope if self.is_plain(x)]))
+            kind = self.vars[r[1]]["type"]
+            lits = d(st.lists(st.sampled_from([0, 1, 2, 3] if kind == "int" else NAMES), max_size=3))
+            return {"c": "in", "item": {"t": "var", "i": r[1]}, "cont": {"t": "lit", "v": lits}, "form": d(st.sampled_from(["in", "contains"]))}
+        if k == "cmp_int" and not self.items(scope) and not any(self.vars[x[1]]["type"] == "int" for x in scope if self.is_plain(x)):
+            k = "cmp_str"
+        if k == "cmp_str" and not self.items(scope) and not any(self.vars[x[1]]["type"] == "str" for x in scope if self.is_plain(x)):
+            k = "cmp_int"
         if k == "cmp_int":
             l = self.int_term(scope, allow_lit=False)
             r = self.int_term(scope)
@@ -274,7 +306,7 @@ class _Ctx:
                 inner = self.cond_using([loc, dloc], dloc, depth - 1, neg)
                 return {"c": "exists", "v": {"t": dloc[0], "i": dloc[1]}, "x": inner, "locals": [list(loc), list(dloc)]}
             # the documented semi-join form: exists(x, c(x, flatten(x.kids))) with x a plain outer variable
-            outers = [r for r in scope if r[0] == "var" and not self.vars[r[1]].get("sub")]
+            outers = [r for r in scope if r[0] == "var" and not self.vars[r[1]].get("sub") and not self.is_plain(r)]
             if not outers:
                 return self.atom(scope)
             outer = d(st.sampled_from(outers))
@@ -397,6 +429,15 @@ def query_ir(draw, cfg: Cfg):
             "dom": dom, "gen": draw(st.booleans()) if cfg.allow_generators else False, "local": False, "sub": None,
         })
     scope = [("var", i) for i in range(n_vars)]
+    if cfg.allow_plain_variables and draw(st.sampled_from([0, 0, 1])):
+        kind = draw(st.sampled_from(["int", "int", "str"]))
+        pool = [0, 1, 2, 3] if kind == "int" else ["", "n", "m", "n1"]
+        k = draw(st.integers(1, 4))
+        dom = draw(st.lists(st.sampled_from(pool), min_size=k, max_size=k, unique=True))
+        ctx.vars.append({"type": kind, "dom": dom, "gen": draw(st.booleans()) if cfg.allow_generators else False,
+                         "local": False, "sub": None, "plain": True})
+        (ctx.plain_int if kind == "int" else ctx.plain_str).append(len(ctx.vars) - 1)
+        scope.append(("var", len(ctx.vars) - 1))
     if cfg.allow_flatten and cfg.fragment == "c01" and draw(st.integers(0, 3)) == 0 and (
             ctx.flags["kids_nonempty"] or not cfg.flatten_nonempty):
         of = {"t": "attr", "of": ctx.item_term(scope, 0), "name": "kids"}
@@ -437,7 +478,7 @@ def query_ir(draw, cfg: Cfg):
         pool = [{"t": k, "i": i} for (k, i) in scope]
     else:
         pool = [{"t": k, "i": i} for (k, i) in scope]
-        for (k, i) in scope:
+        for (k, i) in ctx.items(scope):
             base = {"t": k, "i": i}
             pool.append({"t": "attr", "of": base, "name": draw(st.sampled_from(["a", "b", "name", "tags", "friend"]))})
     n_sel = draw(st.integers(1, min(3, len(pool))))
